@@ -194,7 +194,7 @@ func verifDeliverAll(mgr *DechunkerManager, dir string, chunks []*proto.LoadChun
 
 func verifBounds() (maxLen, maxSize int) {
 	if verifTier() == 1 {
-		return 10, 11
+		return 16, 17
 	}
 	return 6, 7
 }
@@ -220,13 +220,12 @@ func VerifC28RoundTrip() {
 	}
 	if n > 0 && int64(n)%size == 0 {
 		verifReach("exact-multiple")
-		// the stream ends on a chunk boundary: the end is signalled by one more chunk
-		verifAssert("C28-exact-multiple-chunk-count", int64(len(chunks)) == int64(n)/size+1)
 	}
 	if int64(n)%size != 0 {
 		verifReach("remainder")
-		verifAssert("C28-remainder-chunk-count", int64(len(chunks)) == int64(n)/size+1)
 	}
+	// (the end of a stream that stops on a chunk boundary may be signalled by one more, empty chunk)
+	verifAssert("C28-no-superfluous-chunks", int64(len(chunks)) <= int64(n)/size+1)
 	_, nRead, _ := c.Counts()
 	verifAssert("C28-counts-bytes-read", nRead == int64(n))
 
@@ -286,7 +285,7 @@ func VerifC28Readers() {
 	verifPanicsAreViolations()
 	maxLen, maxSize := 4, 3
 	if verifTier() == 1 {
-		maxLen, maxSize = 6, 4
+		maxLen, maxSize = 8, 4
 	}
 	n := verifChoice("len", maxLen+1)
 	size := int64(1 + verifChoice("chunkSize", maxSize))
@@ -328,6 +327,7 @@ func VerifC28ReadError() {
 			sawErr = true
 			break
 		}
+		verifAssert("C28-next-returns-chunk", ch != nil)
 		verifAssert("C28-truncated-stream-not-marked-last", !ch.IsLast)
 	}
 	verifReach("read-error")
@@ -335,14 +335,15 @@ func VerifC28ReadError() {
 }
 
 // VerifC28Sequences: one altered delivery (drop, replay, swap, chunk of another stream) against a
-// reference receiver: a chunk is accepted iff it belongs to the stream the dechunker is bound to
-// and carries the next sequence number; rejected chunks leave nothing in the file; "true" is
-// returned only when the file is the complete stream.
+// reference receiver: a chunk that does not belong to the stream the dechunker is bound to, or
+// does not carry the next sequence number, is rejected; until the first rejection every in-order
+// chunk is accepted; rejected chunks leave nothing in the file; "true" is returned only when the
+// file is the complete stream.
 func VerifC28Sequences() {
 	verifPanicsAreViolations()
 	maxLen, maxSize := 4, 3
 	if verifTier() == 1 {
-		maxLen, maxSize = 6, 4
+		maxLen = 5
 	}
 	n := 1 + verifChoice("len", maxLen)
 	size := int64(1 + verifChoice("chunkSize", maxSize))
@@ -370,34 +371,58 @@ func VerifC28Sequences() {
 		copy(order[at+1:], order[at:])
 		order[at] = v
 	}
-	kind := verifChoice("mutation", 5)
-	switch kind {
-	case 1: // drop chunk i
-		i := verifChoice("i", nA)
-		order = append(order[:i], order[i+1:]...)
-		verifReach("dropped")
-	case 2: // chunk i delivered once more, at position j
-		i := verifChoice("i", nA)
-		j := verifChoice("j", nA+1)
-		insert(j, i)
-		verifReach("replayed")
-	case 3: // chunks i<j swapped
-		i := verifChoice("i", nA)
-		j := verifChoice("j", nA)
-		verifAssume(i < j)
-		order[i], order[j] = order[j], order[i]
-		verifReach("swapped")
-	case 4: // chunk k of another stream arrives at position j
-		k := verifChoice("k", len(b))
-		j := verifChoice("j", nA+1)
-		// (a foreign chunk that arrives first AND is out of sequence is left out: whether the
-		// dechunker is then bound to that stream is not part of the property)
-		verifAssume(j > 0 || k == 0)
-		insert(j, nA+k)
-		verifReach("foreign")
-		if j > 0 && pool[nA+k].SequenceNum == int64(j+1) {
-			verifReach("foreign-with-expected-sequence-number")
+	// one alteration (quick) or two successive ones (thorough); positions refer to the current list
+	rounds := 1
+	if verifTier() == 1 {
+		rounds = 2
+	}
+	for m := 0; m < rounds; m++ {
+		sfx := strconv.Itoa(m)
+		cur := len(order)
+		kind := verifChoice("mutation"+sfx, 5)
+		if kind != 0 && kind != 4 && cur == 0 {
+			verifAssume(false)
 		}
+		switch kind {
+		case 1: // the chunk at position i is lost
+			i := verifChoice("i"+sfx, cur)
+			order = append(order[:i], order[i+1:]...)
+			verifReach("dropped")
+		case 2: // the chunk at position i is delivered once more, at position j
+			i := verifChoice("i"+sfx, cur)
+			j := verifChoice("j"+sfx, cur+1)
+			insert(j, order[i])
+			verifReach("replayed")
+		case 3: // the chunks at positions i<j change places
+			i := verifChoice("i"+sfx, cur)
+			j := verifChoice("j"+sfx, cur)
+			verifAssume(i < j)
+			order[i], order[j] = order[j], order[i]
+			verifReach("swapped")
+		case 4: // chunk k of another stream arrives at position j
+			k := verifChoice("k"+sfx, len(b))
+			j := verifChoice("j"+sfx, cur+1)
+			insert(j, nA+k)
+			verifReach("foreign")
+			if j > 0 && pool[nA+k].SequenceNum == int64(j+1) {
+				verifReach("foreign-with-expected-sequence-number")
+			}
+		}
+	}
+	identity := len(order) == nA
+	foreign := false
+	for i, idx := range order {
+		if idx != i {
+			identity = false
+		}
+		if idx >= nA {
+			foreign = true
+		}
+	}
+	// Which stream a dechunker is bound to when the very first chunk it sees is out of sequence is
+	// not part of the property: with chunks of two streams in play the first one carries number 1.
+	if foreign {
+		verifAssume(pool[order[0]].SequenceNum == 1)
 	}
 
 	dir, cleanup := verifDir()
@@ -416,10 +441,18 @@ func VerifC28Sequences() {
 			bound = ch.StreamId
 		}
 		if ch.StreamId == bound && ch.SequenceNum == next {
-			verifAssert("C28-in-order-chunk-accepted", err == nil)
-			verifAssert("C28-last-reported-as-sent", last == ch.IsLast)
-			next++
-			want = append(want, pays[idx]...)
+			if !sawErr {
+				verifAssert("C28-in-order-chunk-accepted", err == nil)
+			}
+			// (whether a stream may go on after one of its chunks was rejected is not part of
+			// the property: from then on an in-order chunk may be accepted or refused)
+			if err == nil {
+				verifAssert("C28-last-reported-as-sent", last == ch.IsLast)
+				next++
+				want = append(want, pays[idx]...)
+			} else {
+				verifAssert("C28-rejected-chunk-not-last", !last)
+			}
 		} else {
 			if ch.StreamId != bound {
 				verifAssert("C28-foreign-chunk-rejected", err != nil)
@@ -443,7 +476,7 @@ func VerifC28Sequences() {
 	verifAssert("C28-file-exists", ok)
 	verifAssert("C28-file-holds-exactly-accepted-chunks-length", len(got) == len(want))
 	verifAssert("C28-file-holds-exactly-accepted-chunks", bytes.Equal(got, want))
-	if kind == 0 {
+	if identity {
 		verifAssert("C28-unaltered-completes", sawTrue && !sawErr)
 	} else {
 		verifAssert("C28-altered-sequence-detected", sawErr || !sawTrue)
@@ -532,7 +565,7 @@ func VerifC28Abort() {
 	verifPanicsAreViolations()
 	maxLen, maxSize := 4, 3
 	if verifTier() == 1 {
-		maxLen, maxSize = 6, 4
+		maxLen, maxSize = 8, 5
 	}
 	n := 1 + verifChoice("len", maxLen)
 	size := int64(1 + verifChoice("chunkSize", maxSize))
@@ -614,6 +647,30 @@ func VerifC28Abort() {
 	}
 }
 
+// VerifC28CutChunk: a chunk whose payload was cut short (any proper prefix of a valid encoding,
+// including the empty non-nil payload) is in sequence but must not be accepted as if it were whole.
+func VerifC28CutChunk() {
+	verifPanicsAreViolations()
+	dir, cleanup := verifDir()
+	defer cleanup()
+	dec, err := NewDechunker(dir)
+	verifAssert("C28-dechunker-created", err == nil && dec != nil)
+	payload := verifBytes("payload", verifChoice("payloadLen", 3))
+	enc := verifGzip(payload)
+	verifAssert("C28-encoding-not-empty", len(enc) >= 3)
+	keep := verifChoice("keep", 3+len(payload)) // the model encoding has len(payload)+3 bytes, the real one more
+	if keep >= len(enc) {
+		return
+	}
+	chunk := &proto.LoadChunkRequest{StreamId: "stream-A", SequenceNum: 1, IsLast: verifChoice("isLast", 2) == 1, Data: enc[:keep]}
+	last, err := dec.WriteChunk(chunk)
+	verifReach("cut-chunk")
+	verifAssert("C28-cut-chunk-rejected", err != nil)
+	verifAssert("C28-cut-chunk-not-last", !last)
+	path, _ := dec.Close()
+	os.Remove(path)
+}
+
 // VerifC28HeldChunk: a chunk handed out by Next is looked at again after the following call to
 // Next (a consumer that batches or pipelines chunks). It must still decode to the same bytes.
 func VerifC28HeldChunk() {
@@ -634,8 +691,9 @@ func VerifC28HeldChunk() {
 	verifReach("held-across-next")
 	after, err := verifGunzip(first.Data)
 	intact := err == nil && len(after) == len(before) && bytes.Equal(after, orig[:size])
-	if !intact {
-		// recorded class: the chunk is held across a later Next() (its Data shares the pooled buffer)
+	if !intact && len(first.Data) > 0 && len(second.Data) > 0 && &first.Data[0] == &second.Data[0] {
+		// recorded class: the held chunk's Data and the later chunk's Data are the same memory
+		// (both are buf.Bytes() of the buffer Next puts back into bufferPool)
 		verifFinding("C28-chunk-data-aliases-pooled-buffer")
 	}
 	verifAssert("C28-held-chunk-intact", intact)
@@ -665,9 +723,11 @@ func VerifC28Twin() {
 // ---------------------------------------------------------------------------
 // engine-only models (spec.json "models"); never called natively
 
-// gzip: identity with framing. Encoded form: magic, payload length, payload, end marker. The
-// writer buffers and emits the frame on Close (like a compressor it may hold everything back
-// until then); the reader rejects a wrong magic, a truncated frame and a wrong end marker.
+// gzip: identity with framing. A member is: magic, payload length, payload, end marker. Like the
+// real writer the model emits its header (the magic) with the first Write and may hold everything
+// else back until Close. Like the real reader the model checks the header when it is created,
+// rejects a truncated member or a wrong end marker while it is read, and reads concatenated
+// members as one stream.
 const (
 	verifGzMagic = 0xC7
 	verifGzEnd   = 0x7C
@@ -685,13 +745,15 @@ var (
 type verifGzWState struct {
 	w      io.Writer
 	buf    []byte
+	header bool
 	closed bool
 }
 
 type verifGzRState struct {
-	r    io.Reader
-	left int
-	err  error
+	r       io.Reader
+	needLen bool
+	left    int
+	err     error
 }
 
 var verifGzW = map[*gzip.Writer]*verifGzWState{}
@@ -710,10 +772,22 @@ func verifGzWriterReset(z *gzip.Writer, w io.Writer) {
 	verifGzW[z] = &verifGzWState{w: w}
 }
 
+func verifGzWriterHeader(st *verifGzWState) error {
+	if st.header {
+		return nil
+	}
+	st.header = true
+	_, err := st.w.Write([]byte{verifGzMagic})
+	return err
+}
+
 func verifGzWriterWrite(z *gzip.Writer, p []byte) (int, error) {
 	st := verifGzW[z]
 	if st.closed {
 		return 0, verifErrFileClosed
+	}
+	if err := verifGzWriterHeader(st); err != nil {
+		return 0, err
 	}
 	st.buf = append(st.buf, p...)
 	return len(p), nil
@@ -725,62 +799,84 @@ func verifGzWriterClose(z *gzip.Writer) error {
 		return nil
 	}
 	st.closed = true
+	if err := verifGzWriterHeader(st); err != nil {
+		return err
+	}
 	if len(st.buf) > 255 {
 		return verifErrGzTooLong
 	}
-	frame := make([]byte, 0, len(st.buf)+3)
-	frame = append(frame, verifGzMagic, byte(len(st.buf)))
-	frame = append(frame, st.buf...)
-	frame = append(frame, verifGzEnd)
-	_, err := st.w.Write(frame)
+	rest := append(append([]byte{byte(len(st.buf))}, st.buf...), verifGzEnd)
+	_, err := st.w.Write(rest)
 	return err
 }
 
 func verifGzNewReader(r io.Reader) (*gzip.Reader, error) {
-	var hdr [2]byte
+	var hdr [1]byte
 	if _, err := io.ReadFull(r, hdr[:]); err != nil {
-		return nil, err // io.EOF on empty input, io.ErrUnexpectedEOF on a cut header (as gzip)
+		return nil, err // io.EOF on empty input (as gzip)
 	}
 	if hdr[0] != verifGzMagic {
 		return nil, verifErrGzHeader
 	}
 	z := new(gzip.Reader)
-	verifGzR[z] = &verifGzRState{r: r, left: int(hdr[1])}
+	verifGzR[z] = &verifGzRState{r: r, needLen: true}
 	return z, nil
 }
 
 func verifGzReaderRead(z *gzip.Reader, p []byte) (int, error) {
 	st := verifGzR[z]
-	if st.err != nil {
-		return 0, st.err
-	}
 	if len(p) == 0 {
 		return 0, nil
 	}
-	if st.left == 0 {
-		var t [1]byte
-		if _, err := io.ReadFull(st.r, t[:]); err != nil {
+	var one [1]byte
+	for {
+		if st.err != nil {
+			return 0, st.err
+		}
+		if st.needLen {
+			if _, err := io.ReadFull(st.r, one[:]); err != nil {
+				st.err = io.ErrUnexpectedEOF
+				continue
+			}
+			st.left = int(one[0])
+			st.needLen = false
+		}
+		if st.left > 0 {
+			n := len(p)
+			if n > st.left {
+				n = st.left
+			}
+			k, err := io.ReadFull(st.r, p[:n])
+			st.left -= k
+			if err != nil {
+				st.err = io.ErrUnexpectedEOF
+				if k > 0 {
+					return k, nil
+				}
+				continue
+			}
+			return k, nil
+		}
+		// end of a member
+		if _, err := io.ReadFull(st.r, one[:]); err != nil {
 			st.err = io.ErrUnexpectedEOF
-			return 0, st.err
+			continue
 		}
-		if t[0] != verifGzEnd {
+		if one[0] != verifGzEnd {
 			st.err = verifErrGzChecksum
-			return 0, st.err
+			continue
 		}
-		st.err = io.EOF
-		return 0, io.EOF
+		// another member may follow
+		if _, err := io.ReadFull(st.r, one[:]); err != nil {
+			st.err = io.EOF
+			continue
+		}
+		if one[0] != verifGzMagic {
+			st.err = verifErrGzHeader
+			continue
+		}
+		st.needLen = true
 	}
-	n := len(p)
-	if n > st.left {
-		n = st.left
-	}
-	k, err := io.ReadFull(st.r, p[:n])
-	st.left -= k
-	if err != nil {
-		st.err = io.ErrUnexpectedEOF
-		return k, st.err
-	}
-	return k, nil
 }
 
 func verifGzReaderClose(z *gzip.Reader) error { return nil }
